@@ -14,15 +14,18 @@ open TM
 theorem denseLen_def (sh : Shape) : denseLen sh = if sh.isEmpty then 1 else (totalSize sh).toNat := rfl
 
 /-- **Default mode returns a fresh bool tensor.** `StdEng.<Cmp>(a, b)` on the raw path: the result is a
-    newly allocated tensor of element type `"b"` (bool), of `a`'s shape, with row-major default strides,
-    whose cell `i` is `op a[i] b[i]`; operands, every pre-existing buffer and the mask heap are untouched. -/
+    newly allocated tensor of element type `"b"` (bool), of `a`'s shape **and data order** (the default strides of
+    that order: finding F36 repaired — the operands being stored in that same order, cell `i` of the result and cell
+    `i` of the operands hold the same coordinate), whose cell `i` is `op a[i] b[i]`; operands, every pre-existing
+    buffer and the mask heap are untouched. No hypothesis on the data order of the operands. -/
 theorem engCmpVV_default (st : St) (op : String) (tc : List String) (a b : Dense)
     (hsh : shapeEq a.shape b.shape = true) (hdt : a.dt = b.dt) (htc : a.dt ∈ tc)
     (hia : a.requiresIterator = false) (hib : b.requiresIterator = false) (hord : sameOrd a b = true)
     (hlen : a.win.len = b.win.len) (hcap : a.win.len ≤ b.win.cap) (hsz : a.win.len ≤ denseLen a.shape)
     (hA : InBuf st a.win.buf a.win.off a.win.len) (hB : InBuf st b.win.buf b.win.off a.win.len) :
     ∃ out r, engCmpVV st op tc a b {} = .ok out ∧ out.ret = .fresh r ∧ out.reuse = none ∧
-      r.dt = "b" ∧ r.ap.shape = a.shape ∧ r.ap.strides = calcStrides a.shape ∧ r.ap.o.col = false ∧
+      r.dt = "b" ∧ r.ap.shape = a.shape ∧ r.ap.strides = Dense.defaultStrides a.ap.o.col a.shape ∧
+      r.ap.o.col = a.ap.o.col ∧
       r.win = ⟨st.heap.size, 0, denseLen a.shape, denseLen a.shape⟩ ∧ r.view = false ∧ r.old = none ∧
       out.st.mheap = st.mheap ∧
       (∀ i, i < a.win.len → ∃ x y, cell st a.win.buf (a.win.off + i) = some x ∧
@@ -34,7 +37,7 @@ theorem engCmpVV_default (st : St) (op : String) (tc : List String) (a b : Dense
   intro i hi
   exact ⟨_, _, cell_some_cellD (hA.has i hi), cell_some_cellD (hB.has i hi), hv i hi⟩
 
-/-- **`AsSameType()`**: a fresh tensor of the *operand* type whose cell `i` is the 1/0 form
+/-- **`AsSameType()`**: a fresh tensor of the *operand* type, shape and data order whose cell `i` is the 1/0 form
     `op.same a[i] b[i]`. -/
 theorem engCmpVV_same (st : St) (op : String) (tc : List String) (a b : Dense)
     (hsh : shapeEq a.shape b.shape = true) (hdt : a.dt = b.dt) (htc : a.dt ∈ tc)
@@ -42,7 +45,8 @@ theorem engCmpVV_same (st : St) (op : String) (tc : List String) (a b : Dense)
     (hlen : a.win.len = b.win.len) (hcap : a.win.len ≤ b.win.cap) (hsz : a.win.len = denseLen a.shape)
     (hA : InBuf st a.win.buf a.win.off a.win.len) (hB : InBuf st b.win.buf b.win.off a.win.len) :
     ∃ out r, engCmpVV st op tc a b { same := true } = .ok out ∧ out.ret = .fresh r ∧
-      r.dt = a.dt ∧ r.ap.shape = a.shape ∧ r.ap.strides = calcStrides a.shape ∧
+      r.dt = a.dt ∧ r.ap.shape = a.shape ∧ r.ap.strides = Dense.defaultStrides a.ap.o.col a.shape ∧
+      r.ap.o.col = a.ap.o.col ∧
       r.win = ⟨st.heap.size, 0, denseLen a.shape, denseLen a.shape⟩ ∧
       out.st.mheap = st.mheap ∧
       (∀ i, i < a.win.len → ∃ x y, cell st a.win.buf (a.win.off + i) = some x ∧
@@ -51,7 +55,7 @@ theorem engCmpVV_same (st : St) (op : String) (tc : List String) (a b : Dense)
       (∀ b' k, b' < st.heap.size → cell out.st b' k = cell st b' k) := by
   obtain ⟨st', h, hm, hv, hfr⟩ := engCmpVV_same' st op tc a b ⟨by simpa using htc, hdt, hsh⟩ hia hib hord
     hlen hcap hsz hA hB
-  refine ⟨_, _, h, rfl, rfl, rfl, rfl, rfl, hm, ?_, hfr⟩
+  refine ⟨_, _, h, rfl, rfl, rfl, rfl, rfl, rfl, hm, ?_, hfr⟩
   intro i hi
   exact ⟨_, _, cell_some_cellD (hA.has i hi), cell_some_cellD (hB.has i hi), hv i hi⟩
 
@@ -93,6 +97,22 @@ theorem engCmpScalar_scalar_left (st : St) (op : String) (tc : List String) (t :
   intro i hi
   exact ⟨_, cell_some_cellD (hT.has i hi), hv i hi⟩
 
+/-- **`UseUnsafe()` with the scalar on the left of a one-element tensor** (finding F33, repaired): the tensor's only
+    cell becomes the 1/0 form `op.same s t[0]` — scalar FIRST — and the tensor itself is returned; apart from the
+    scalar's temporary header no cell changes. (For larger tensors the scalar-left kernel writes the tensor directly.) -/
+theorem engCmpScalar_unsafe_scalar_left_one (st : St) (op : String) (tc : List String) (t : Dense) (sc : ScalarArg)
+    (htc : t.dt ∈ tc) (hdt : t.dt = sc.dt) (hs1 : sc.win.len = 1) (ht1 : t.win.len = 1)
+    (hne : sc.win.buf ≠ t.win.buf) (hcap : 1 ≤ t.win.cap)
+    (hS : InBuf st sc.win.buf sc.win.off 1) (hT : InBuf st t.win.buf t.win.off 1) :
+    ∃ out s x, engCmpScalar st op tc t sc false { unsafe_ := true } = .ok out ∧ out.ret = .a ∧
+      cell st sc.win.buf sc.win.off = some s ∧ cell st t.win.buf t.win.off = some x ∧
+      out.st.mheap = st.mheap ∧
+      cell out.st t.win.buf t.win.off = some (.app2 (op ++ ".same") s x) ∧
+      (∀ b' k, b' ≠ sc.win.buf → (b' ≠ t.win.buf ∨ k ≠ t.win.off) → cell out.st b' k = cell st b' k) := by
+  obtain ⟨st', h, hm, hv, hfr⟩ := engCmpScalar_unsafe_left_one' st op tc t sc (by simpa using htc) hdt hs1 ht1 hne hcap hS hT
+  exact ⟨_, _, _, h, rfl, cell_some_cellD (by simpa using hS.has 0 (by omega)),
+    cell_some_cellD (by simpa using hT.has 0 (by omega)), hm, hv, hfr⟩
+
 /-! ## non-vacuity -/
 namespace Ex
 def st : St := { heap := #[#[.src 0 0, .src 0 1, .src 0 2, .src 0 3], #[.src 1 0, .src 1 1, .src 1 2, .src 1 3],
@@ -113,6 +133,21 @@ example := engCmpVV_unsafe st "gt" ordTypes ta tb (by decide) rfl (by decide) (b
 example := engCmpVV_refuses st "gt" ordTypes { ta with dt := "c128" } tb {} (by decide)
 example := engCmpScalar_scalar_left st "gt" ordTypes ta sc (by decide) rfl (by decide) rfl (by decide) (by decide)
   inS inA
+-- column-major operands: the result is column-major as well (F36 repaired)
+def tac : Dense := { ap := { shape := [2, 2], strides := [1, 2], o := { col := true } }, win := ⟨0, 0, 4, 4⟩, dt := "f64" }
+def tbc : Dense := { ap := { shape := [2, 2], strides := [1, 2], o := { col := true } }, win := ⟨1, 0, 4, 4⟩, dt := "f64" }
+example := engCmpVV_default st "gt" ordTypes tac tbc (by decide) rfl (by decide) (by decide) (by decide) (by decide)
+  rfl (by decide) (by decide) inA inB
+example : ∃ out r, engCmpVV st "gt" ordTypes tac tbc {} = .ok out ∧ out.ret = .fresh r ∧ r.ap.o.col = true ∧
+    r.ap.strides = [1, 2] := ⟨_, _, rfl, rfl, rfl, by decide⟩
+-- the one-element tensor and the scalar on its left, unsafe (F33 repaired): `gt.same 2 t[0]` ends up in the tensor
+def st1 : St := { heap := #[#[.src 0 0], #[.src 1 0]] }
+def t1 : Dense := { ap := { shape := [1, 1], strides := [1, 1] }, win := ⟨0, 0, 1, 1⟩, dt := "f64" }
+def sc1 : ScalarArg := { win := ⟨1, 0, 1, 1⟩, dt := "f64" }
+example := engCmpScalar_unsafe_scalar_left_one st1 "gt" ordTypes t1 sc1 (by decide) rfl rfl rfl (by decide) (by decide)
+  ⟨_, rfl, by decide⟩ ⟨_, rfl, by decide⟩
+example : ∃ out, engCmpScalar st1 "gt" ordTypes t1 sc1 false { unsafe_ := true } = .ok out ∧
+    cell out.st 0 0 = some (.app2 "gt.same" (.src 1 0) (.src 0 0)) := ⟨_, rfl, rfl⟩
 /-- a concrete run: `Gt(2, t)` compares `gt 2 t[i]`, not `gt t[i] 2` -/
 example : ∃ out, engCmpScalar st "gt" ordTypes ta sc false {} = .ok out ∧
     cell out.st 3 1 = some (.app2 "gt" (.src 2 0) (.src 0 1)) := ⟨_, rfl, rfl⟩
